@@ -4,6 +4,8 @@
     then one end marker; a single-shot or two-step operation resolves once, after its final
     completion, with the result of its (last) non-notification completion.
     Property theorems only; model in Model/OpState.v, proofs in Proofs/OpStateLedger.v. *)
+(* the small-step race model first: the names of Model/OpState.v imported next take precedence *)
+From A10 Require Import Model.OpRace Proofs.OpRaceProofs.
 From A10 Require Import Base.Word Base.Run Model.OpState Proofs.OpStateInv Proofs.OpStateRestart
                         Proofs.OpStateLedger.
 
@@ -35,3 +37,24 @@ Print Assumptions C02_outputs_refine_kernel_script.
 Print Assumptions C02_single_result_is_the_only_result.
 Print Assumptions C02_single_resolves_once.
 Print Assumptions C02_single_keeps_last_result_refuted.
+
+(** * Under interleaving (Model/OpRace.v, small-step at hook-B granularity: future threads polling /
+    dropping while [Ring::poll] dispatches and the kernel posts; single-shot, multishot and
+    two-step operations, all completion scripts, all programs obeying [progs_ok], ALL
+    interleavings; replayed against the real code by the driver C03R on every run of this check):
+    a multishot stream hands out exactly a prefix of what the kernel posted for that operation,
+    each result once, in order, and everything once it has ended; a single-shot / two-step
+    operation resolves at most once, only after its final completion was dispatched, with the
+    result of its own last completion that is not a notification. *)
+Theorem C02_race_results_are_own_in_order : OpRaceProofs.race_results_are_own_in_order.
+Proof. exact OpRaceProofs.race_results_are_own_in_order_holds. Qed.
+
+(** Seeded change C02-a ([Multishot::next] with [swap_remove(0)]): a valid interleaving whose
+    handed-out order (11, 13, 12) differs from the posted order (11, 12, 13). *)
+Theorem C02_race_stream_order_c02a_refuted : OpRaceProofs.race_stream_order_c02a_refuted.
+Proof. exact OpRaceProofs.race_stream_order_c02a_refuted_holds. Qed.
+
+Check C02_race_results_are_own_in_order : OpRaceProofs.race_results_are_own_in_order.
+Check C02_race_stream_order_c02a_refuted : OpRaceProofs.race_stream_order_c02a_refuted.
+Print Assumptions C02_race_results_are_own_in_order.
+Print Assumptions C02_race_stream_order_c02a_refuted.
